@@ -191,7 +191,7 @@ class Lexer:
                     **self.exception_kwargs,
                 )
 
-    _coding_re = re.compile(r"#.*coding[:=]\s*([-\w.]+).*\r?\n")
+    _coding_re = re.compile(r"#.*coding[:=][ \t]*([-\w.]+).*\r?\n")
 
     def decode_raw_stream(self, text, decode_raw, known_encoding, filename):
         """given string/unicode or bytes/string, determine encoding
